@@ -155,38 +155,87 @@ def rand_ascii(rng, n: int, filesafe: bool = False) -> str:
     return ''.join(rng.choice(al) for _ in range(n))
 
 
+EDGE_STRINGS = (' ', '  ', ' a', 'a ', ' a b  ', '0', '-1.5e3', 'nan', "''", '""', '\\', '%s', '{}', 'a' * 255, 'b' * 256,
+                'c' * 257)
+
+
+def rand_string(rng, n: int) -> str:
+    """ASCII string of about n characters; now and then one whose ends are blanks, that looks like a
+    number / a format, or whose length sits at a power of two."""
+    if rng.random() < 0.12:
+        return rng.choice(EDGE_STRINGS)
+    return rand_ascii(rng, n)
+
+
 def rand_len(rng, big: int = 300) -> int:
     return rng.choice([0, 0, 1, 2, 5, 9, 17, 33, 64, 100, rng.randrange(0, big), rng.randrange(0, 40)])
 
 
-def _angle(rng):
+def _f32(x: float) -> float:
+    return float(np.float32(x))
+
+
+def _angle(rng, num: str = 'float'):
+    if num == 'int':      # integer-typed angles (90 deg is the int 90, not 90.0)
+        unit = rng.choice(['rad', 'deg'])
+        return [rng.choice([0, 90, -90, 180, 45, rng.randrange(-360, 361)]) if unit == 'deg'
+                else rng.choice([0, 1, -2, 3, rng.randrange(-6, 7)]), unit]
+    if num == 'f32':      # single precision, no conversion needed (see the assumption in c13.py)
+        return [_f32(rng.choice([0.0, 1.0, -0.5, rng.uniform(-7, 7), rng.uniform(-1e-3, 1e-3)])), 'rad']
     unit = rng.choice(['rad', 'deg'])
     if unit == 'deg':
-        v = rng.choice([0.0, 90.0, -90.0, 180.0, 45.0, float(rng.randrange(-360, 361)),
-                        rng.uniform(-360, 360)])
+        v = rng.choice([0.0, -0.0, 90.0, -90.0, 180.0, 45.0, float(rng.randrange(-360, 361)),
+                        rng.uniform(-360, 360), rng.uniform(-1, 1) * 10.0 ** rng.randrange(-12, 3)])
     else:
-        v = rng.choice([0.0, 1.0, -0.5, rng.uniform(-7, 7), rng.uniform(-1e-3, 1e-3)])
+        v = rng.choice([0.0, -0.0, 1.0, -0.5, rng.uniform(-7, 7), rng.uniform(-1e-3, 1e-3),
+                        rng.uniform(-1, 1) * 10.0 ** rng.randrange(-12, 1)])
     return [v, unit]
 
 
-def rand_experiment(rng, run_id: int, indirect: bool, per_detector_en: bool = False):
-    eunit = rng.choice(['meV', 'meV', 'eV', 'ueV'])
+NUM_CLASSES = ('float', 'float', 'float', 'float', 'int', 'int', 'f32')
+
+
+def rand_experiment(rng, run_id: int, indirect: bool, per_detector_en: bool = False, num: str | None = None):
+    """One run.  `num` is the numeric class of what the caller hands over: 'float' (float64), 'int'
+    (integer-typed energies and angles in any convertible unit) or 'f32' (float32 in the units of
+    the file, so that no conversion is involved)."""
+    num = num or rng.choice(NUM_CLASSES)
     n_en = rng.choice([1, 2, 3, 7])
-    en = sorted(rng.choice([float(rng.randrange(-50, 50)), rng.uniform(-100, 100)]) for _ in range(n_en))
+    if num == 'int':
+        eunit = rng.choice(['meV', 'eV', 'ueV'])
+        one = lambda: float(rng.randrange(-50, 50))       # noqa: E731
+        fix = lambda: float(rng.randrange(1, 500))        # noqa: E731
+        efix_units = ['meV', 'eV', 'ueV']
+    elif num == 'f32':
+        eunit = 'meV'
+        one = lambda: _f32(rng.uniform(-100, 100))        # noqa: E731
+        fix = lambda: _f32(rng.uniform(0.1, 500))         # noqa: E731
+        efix_units = ['meV']
+    else:
+        eunit = rng.choice(['meV', 'meV', 'eV', 'ueV'])
+        one = lambda: rng.choice([float(rng.randrange(-50, 50)), rng.uniform(-100, 100)])   # noqa: E731
+        fix = lambda: rng.choice([1.5, 0.16, rng.uniform(0.1, 500), rng.uniform(1, 10) * 10.0 ** rng.randrange(-9, 9)])  # noqa: E731
+        efix_units = ['meV', 'meV', 'eV', 'ueV']
+    en = sorted(one() for _ in range(n_en))
     if indirect:
         ndet = rng.choice([2, 3, 5])  # a 1-element array is indistinguishable from a scalar in the file
-        efix = [[rng.uniform(0.1, 50) for _ in range(ndet)], rng.choice(['meV', 'eV'])]
+        efix = [[fix() for _ in range(ndet)], rng.choice(efix_units[:3] if num != 'float' else ['meV', 'eV'])]
         if per_detector_en:
-            en = [sorted(rng.uniform(-100, 100) for _ in range(max(n_en, 2))) for _ in range(ndet)]
+            en = [sorted(one() for _ in range(max(n_en, 2))) for _ in range(ndet)]
     else:
-        efix = [rng.choice([1.5, 0.16, rng.uniform(0.1, 500)]), rng.choice(['meV', 'meV', 'eV', 'ueV'])]
+        efix = [fix(), rng.choice(efix_units)]
+    if num == 'int':      # JSON keeps them as integers: the scipp objects are built integer-typed
+        conv = lambda x: [conv(y) for y in x] if isinstance(x, list) else int(x)   # noqa: E731
+        en, efix = conv(en), [conv(efix[0]), efix[1]]
     return {
         'run_id': run_id, 'emode': 2 if indirect else 1, 'efix': efix, 'en': [en, eunit],
+        'num': num, 'dt': {'float': 'float64', 'int': rng.choice(['int64', 'int32']), 'f32': 'float32'}[num],
         'en_transposed': bool(indirect and per_detector_en and rng.random() < 0.5),
-        'psi': _angle(rng), 'omega': _angle(rng), 'dpsi': _angle(rng), 'gl': _angle(rng), 'gs': _angle(rng),
+        'psi': _angle(rng, num), 'omega': _angle(rng, num), 'dpsi': _angle(rng, num), 'gl': _angle(rng, num),
+        'gs': _angle(rng, num),
         'u': [rng.choice([1.0, 0.0, rng.uniform(-2, 2)]) for _ in range(3)],
         'v': [rng.choice([1.0, 0.0, rng.uniform(-2, 2)]) for _ in range(3)],
-        'filename': rand_ascii(rng, rand_len(rng, 120)), 'filepath': rand_ascii(rng, rand_len(rng, 200)),
+        'filename': rand_string(rng, rand_len(rng, 120)), 'filepath': rand_string(rng, rand_len(rng, 200)),
     }
 
 
@@ -201,41 +250,61 @@ def rand_sample(rng):
     ang = [rng.choice([90.0, 60.0, 120.0, rng.uniform(30, 150)]) for _ in range(3)]
     if au == 'rad':
         ang = [rng.uniform(0.5, 2.6) for _ in range(3)]
-    return {'name': rand_ascii(rng, rand_len(rng, 80)), 'alatt': [sp, lu], 'angdeg': [ang, au]}
+    return {'name': rand_string(rng, rand_len(rng, 80)), 'alatt': [sp, lu], 'angdeg': [ang, au]}
 
 
 def rand_instrument(rng):
-    return {'name': rand_ascii(rng, rand_len(rng, 80)), 'source_name': rand_ascii(rng, rand_len(rng, 60)),
-            'target_name': rand_ascii(rng, rand_len(rng, 60)),
+    return {'name': rand_string(rng, rand_len(rng, 80)), 'source_name': rand_string(rng, rand_len(rng, 60)),
+            'target_name': rand_string(rng, rand_len(rng, 60)),
             'frequency': [rng.choice([0.0, 14.0, 13.4, rng.uniform(0, 100)]), rng.choice(['Hz', 'MHz'])]}
 
 
-def rand_dnd(rng, shape=None):
+def rand_dnd(rng, shape=None, num: str | None = None):
+    """Histogram metadata.  `num`: numeric class of the scales / ranges / offsets handed over
+    ('float' float64, 'int' integer-typed in any convertible unit, 'f32' float32 in the file's units)."""
     if shape is None:
         shape = [rng.choice([1, 1, 2, 3, rng.randrange(1, 9)]) for _ in range(4)]
+    num = num or rng.choice(NUM_CLASSES)
     il = list(INV_LENGTH)
 
     def four(fn):
         return [fn(i) for i in range(4)]
 
     def qunit(i):
+        if num == 'f32':
+            return '1/angstrom' if i < 3 else 'meV'
         return rng.choice(il) if i < 3 else rng.choice(list(ENERGY))
+
+    if num == 'int':
+        scale = lambda: rng.randrange(1, 10)                                  # noqa: E731
+        rnge = lambda: [rng.randrange(-10, 0), rng.randrange(0, 11)]          # noqa: E731
+        offs = lambda: rng.randrange(-3, 4)                                   # noqa: E731
+    elif num == 'f32':
+        scale = lambda: _f32(rng.choice([1.0, 0.5, rng.uniform(0.01, 10)]))   # noqa: E731
+        rnge = lambda: sorted([_f32(rng.uniform(-10, 0)), _f32(rng.uniform(0, 10))])   # noqa: E731
+        offs = lambda: _f32(rng.choice([0.0, 0.5, rng.uniform(-3, 3)]))       # noqa: E731
+    else:
+        scale = lambda: rng.choice([1.0, 0.5, rng.uniform(0.01, 10), rng.uniform(1, 10) * 10.0 ** rng.randrange(-9, 9)])   # noqa: E731
+        rnge = lambda: sorted([rng.uniform(-10, 0), rng.uniform(0, 10)])      # noqa: E731
+        offs = lambda: rng.choice([0.0, -0.0, 0.5, rng.uniform(-3, 3), rng.uniform(-1, 1) * 10.0 ** rng.randrange(-12, 6)])   # noqa: E731
 
     sample = rand_sample(rng)
     return {
         'shape': list(shape),
-        'axes_title': rand_ascii(rng, rand_len(rng, 90)),
+        'num': num, 'dt': {'float': 'float64', 'int': rng.choice(['int64', 'int32']), 'f32': 'float32'}[num],
+        'nbins_dt': rng.choice(['int64', 'int64', 'int32', 'float64']), 'dax_dt': rng.choice(['int64', 'int64', 'int32']),
+        'axes_title': rand_string(rng, rand_len(rng, 90)),
         'label': [rand_ascii(rng, rng.choice([0, 1, 2, 5, 1 + rand_len(rng, 20)])) for _ in range(4)],
-        'img_scales': four(lambda i: [rng.choice([1.0, 0.5, rng.uniform(0.01, 10)]), qunit(i)]),
-        'img_range': four(lambda i: [sorted([rng.uniform(-10, 0), rng.uniform(0, 10)]), qunit(i)]),
+        'img_scales': four(lambda i: [scale(), qunit(i)]),
+        'img_range': four(lambda i: [rnge(), qunit(i)]),
         'single_bin': [bool(rng.randrange(2)) for _ in range(4)],
         'dax': rng.sample(range(4), 4),
-        'offset': four(lambda i: [rng.choice([0.0, 0.5, rng.uniform(-3, 3)]), qunit(i)]),
+        'offset': four(lambda i: [offs(), qunit(i)]),
         'changes_aspect_ratio': bool(rng.randrange(2)),
-        'proj_title': rand_ascii(rng, rand_len(rng, 90)),
+        'proj_title': rand_string(rng, rand_len(rng, 90)),
         'proj_label': [rand_ascii(rng, rng.choice([0, 1, 2, 5, 1 + rand_len(rng, 20)])) for _ in range(4)],
         'proj_alatt': sample['alatt'], 'proj_angdeg': sample['angdeg'],
-        'proj_offset': four(lambda i: [rng.choice([0.0, 0.5, rng.uniform(-3, 3)]), qunit(i)]),
+        'proj_offset': four(lambda i: [offs(), qunit(i)]),
         'proj_u': [[rng.choice([1.0, 0.0, rng.uniform(-2, 2)]) for _ in range(3)], rng.choice(il)],
         'proj_v': [[rng.choice([1.0, 0.0, rng.uniform(-2, 2)]) for _ in range(3)], rng.choice(il)],
         'proj_w': None if rng.random() < 0.6 else [[rng.uniform(-2, 2) for _ in range(3)], rng.choice(il)],
@@ -262,7 +331,7 @@ def rand_pix_recipe(rng, npix, nruns, simple: bool = False, intconv: bool = Fals
         if r in (4, 5, 6):
             units.append(None)
             kinds.append('int')
-            dtypes.append(rng.choice(['int64', 'int64', 'float64', 'int32']))
+            dtypes.append(rng.choice(['int64', 'int64', 'float64', 'int32', 'float32']))
             continue
         if simple:
             kinds.append('grid')
@@ -282,6 +351,11 @@ def rand_pix_recipe(rng, npix, nruns, simple: bool = False, intconv: bool = Fals
     if not simple and rng.random() < 0.25 and units[7] == 'count':
         dtypes[7] = dtypes[8] = 'float32'  # same unit: no conversion, float32 passes through
         kinds[7] = kinds[8] = 'f32'
+    if not simple:
+        # float32 momentum / energy rows in the unit of the file (no conversion: float32 passes through)
+        for r in range(4):
+            if units[r] == ROW_UNITS[r] and kinds[r] in ('grid', 'f32', 'f64') and rng.random() < 0.2:
+                kinds[r], dtypes[r] = ('grid' if kinds[r] == 'grid' else 'f32'), 'float32'
     if intconv:
         # integer-typed momentum / energy rows given in a unit that needs conversion
         for r in rng.sample(range(4), rng.choice([1, 2])):
@@ -387,15 +461,29 @@ def random_config(rng, *, thorough: bool, small: bool = False, force=None, intco
     cfg = {
         'calls': calls, 'npix': npix, 'nruns': nruns, 'chunk': chunk,
         'bo': rng.choice(['native', 'little', 'big']), 'where': where,
-        'title': rand_ascii(rng, rand_len(rng, 400 if thorough else 150)),
+        'title': rand_string(rng, rand_len(rng, 400 if thorough else 150)),
         'fname': rand_ascii(rng, rng.choice([1, 4, 30, 120, 200, 250]), filesafe=True).lstrip('.-') or 'x',
         'subdirs': [rand_ascii(rng, rng.choice([1, 20, 200]), filesafe=True).strip('.-') or 'd'
                     for _ in range(rng.choice([0, 0, 1, 3]))],
-        'n_dims': 4,
+        'n_dims': rng.choice([4, 4, 4, 0, 1, 2, 3]),
         'pix': rand_pix_recipe(rng, npix, nruns),
         'exps': [rand_experiment(rng, i, indirect, per_detector_en) for i in range(nruns)],
         'inst': rand_instrument(rng), 'samp': rand_sample(rng), 'dnd': rand_dnd(rng),
+        # how things are handed over (none of it changes what is supplied)
+        'bo_enum': rng.random() < 0.3,                     # byte order as Byteorder member instead of a string
+        'pix_view': rng.choice(PIX_VIEWS),                 # the pixel table as a view into a larger / strided array
+        'pix_dim': rng.choice(['obs', 'obs', 'pixel', 'event', 'row']),
+        # what the target path holds before create() (bytes; real files only) and how often create() is called
+        'prev': 0, 'twice': False,
     }
+    if where != 'bytesio' and (small or npix <= 20000):
+        r = rng.random()
+        if r < 0.25:
+            cfg['prev'] = rng.choice([1, 30, 36 * npix + 200_000])   # shorter / longer than the new file
+        elif r < 0.35:
+            cfg['twice'] = True
+    if rng.random() < 0.04:
+        cfg['title'] = rand_ascii(rng, rng.choice([65535, 65536, 65537, 70001]))
     if intconv and 'pix' in calls:
         # kept apart from the chunk-loop classes: everything fits into one chunk
         cfg['npix'] = npix = min(npix, 5000)
@@ -406,15 +494,32 @@ def random_config(rng, *, thorough: bool, small: bool = False, force=None, intco
         step = rng.choice([1, 2, 7])
         for i, e in enumerate(cfg['exps']):
             e['run_id'] = base + i * step
+    if nruns > 1 and rng.random() < 0.35:   # ... nor be listed in increasing order
+        ids = [e['run_id'] for e in cfg['exps']]
+        ids = ids[::-1] if rng.random() < 0.4 else rng.sample(ids, len(ids))
+        for e, i in zip(cfg['exps'], ids, strict=True):
+            e['run_id'] = i
     return cfg
 
 
-def config_from_behaviour(rng, order, npix, shape, chunk, bo, where='bytesio'):
+PIX_VIEWS = ('plain', 'plain', 'plain', 'slice', 'strided', 'step')
+
+
+def large_config(rng, npix: int, chunk, where: str = 'file_path'):
+    """The upper end of the quantifier in every tier: many pixels (beyond 2^16), several chunks."""
+    cfg = random_config(rng, thorough=False, small=True, force=['pix'])
+    cfg.update(npix=npix, chunk=chunk, where=where, prev=0, twice=False)
+    cfg['pix'] = rand_pix_recipe(rng, npix, cfg['nruns'])
+    return cfg
+
+
+def config_from_behaviour(rng, order, npix, shape, chunk, bo, where='bytesio', prev=0, twice=False):
     """A TLC-enumerated behaviour of SqwBuilder (call order + abstract arguments) made concrete."""
     nruns = 1 + (npix + len(order)) % 3
     return {
         'calls': list(order), 'npix': int(npix), 'nruns': nruns, 'chunk': int(chunk), 'bo': bo, 'where': where,
         'title': 'T' * ((npix * 7 + chunk) % 23), 'fname': 'f.sqw', 'subdirs': [], 'n_dims': 4,
+        'prev': int(prev), 'twice': bool(twice), 'bo_enum': False, 'pix_view': 'plain', 'pix_dim': 'obs',
         'pix': rand_pix_recipe(rng, npix, nruns, simple=True),
         'exps': [rand_experiment(rng, i, False) for i in range(nruns)],
         'inst': rand_instrument(rng), 'samp': rand_sample(rng), 'dnd': rand_dnd(rng, shape=list(shape)),
@@ -422,13 +527,13 @@ def config_from_behaviour(rng, order, npix, shape, chunk, bo, where='bytesio'):
 
 
 # ------------------------------------------------------------------------ concrete scipp objects
-def _q(vu):
+def _q(vu, dt: str = 'float64'):
     import scipp as sc
 
     v, u = vu
     if isinstance(v, list):
-        return sc.array(dims=['x'], values=np.asarray(v, dtype='float64'), unit=u)
-    return sc.scalar(float(v), unit=u)
+        return sc.array(dims=['x'], values=np.asarray(v, dtype=dt), unit=u)
+    return sc.scalar(np.asarray(v, dtype=dt)[()], unit=u, dtype=dt)
 
 
 def _vec(vu):
@@ -442,19 +547,21 @@ def make_experiment(e):
     import scipp as sc
     from scippneutron.io.sqw import EnergyMode, SqwIXExperiment
 
+    dt = e.get('dt', 'float64')
     efv, efu = e['efix']
-    efix = (sc.array(dims=['detector'], values=np.asarray(efv, dtype='float64'), unit=efu)
-            if isinstance(efv, list) else sc.scalar(float(efv), unit=efu))
+    efix = (sc.array(dims=['detector'], values=np.asarray(efv, dtype=dt), unit=efu)
+            if isinstance(efv, list) else _q([efv, efu], dt))
     en = sc.array(dims=['energy_transfer'] if not isinstance(e['en'][0][0], list) else ['detector', 'energy_transfer'],
-                  values=np.asarray(e['en'][0], dtype='float64'), unit=e['en'][1])
+                  values=np.asarray(e['en'][0], dtype=dt), unit=e['en'][1])
     if en.ndim == 2 and e.get('en_transposed'):
         # the same table supplied with the dimensions in the other order (energy-major memory layout):
         # the labels, not the memory order, say which entry belongs to which detector
         en = en.transpose(['energy_transfer', 'detector']).copy()
     return SqwIXExperiment(
         run_id=e['run_id'], efix=efix, emode=EnergyMode(e['emode']), en=en,
-        psi=_q(e['psi']), u=sc.vector(e['u']), v=sc.vector(e['v']), omega=_q(e['omega']), dpsi=_q(e['dpsi']),
-        gl=_q(e['gl']), gs=_q(e['gs']), filename=e['filename'], filepath=e['filepath'])
+        psi=_q(e['psi'], dt), u=sc.vector(e['u']), v=sc.vector(e['v']), omega=_q(e['omega'], dt),
+        dpsi=_q(e['dpsi'], dt), gl=_q(e['gl'], dt), gs=_q(e['gs'], dt), filename=e['filename'],
+        filepath=e['filepath'])
 
 
 def make_sample(s):
@@ -474,31 +581,82 @@ def make_dnd(d):
     import scipp as sc
     from scippneutron.io.sqw import SqwDndMetadata, SqwLineAxes, SqwLineProj
 
+    dt = d.get('dt', 'float64')
     axes = SqwLineAxes(
         title=d['axes_title'], label=list(d['label']),
-        img_scales=[_q(x) for x in d['img_scales']],
-        img_range=[sc.array(dims=['range'], values=np.asarray(v, dtype='float64'), unit=u) for v, u in d['img_range']],
-        n_bins_all_dims=sc.array(dims=['axis'], values=d['shape'], unit=None),
+        img_scales=[_q(x, dt) for x in d['img_scales']],
+        img_range=[sc.array(dims=['range'], values=np.asarray(v, dtype=dt), unit=u) for v, u in d['img_range']],
+        n_bins_all_dims=sc.array(dims=['axis'], values=np.asarray(d['shape'], dtype=d.get('nbins_dt', 'int64')),
+                                 unit=None),
         single_bin_defines_iax=sc.array(dims=['axis'], values=d['single_bin']),
-        dax=sc.array(dims=['axis'], values=d['dax'], unit=None),
-        offset=[_q(x) for x in d['offset']], changes_aspect_ratio=d['changes_aspect_ratio'])
+        dax=sc.array(dims=['axis'], values=np.asarray(d['dax'], dtype=d.get('dax_dt', 'int64')), unit=None),
+        offset=[_q(x, dt) for x in d['offset']], changes_aspect_ratio=d['changes_aspect_ratio'])
     proj = SqwLineProj(
         lattice_spacing=_vec(d['proj_alatt']), lattice_angle=_vec(d['proj_angdeg']),
-        offset=[_q(x) for x in d['proj_offset']], title=d['proj_title'], label=list(d['proj_label']),
+        offset=[_q(x, dt) for x in d['proj_offset']], title=d['proj_title'], label=list(d['proj_label']),
         u=_vec(d['proj_u']), v=_vec(d['proj_v']), w=None if d['proj_w'] is None else _vec(d['proj_w']),
         non_orthogonal=d['non_orthogonal'], type='aaa')
     return SqwDndMetadata(axes=axes, proj=proj)
 
 
+def _as_view(vals: np.ndarray, var, view: str, fill_seed: int):
+    """The array `vals` (and `var`iances) embedded in a larger one, such that a scipp slice of the
+    larger variable is exactly `vals`: 'slice' = rows lo..lo+n of a longer array, 'step' = every
+    second element, 'strided' = one column of a 2-d array.  Returns (values, variances, slicer)
+    where slicer maps the big scipp variable to the view."""
+    n = len(vals)
+    g = np.random.default_rng(fill_seed)
+
+    def junk(m, like):
+        j = g.integers(-9, 10, m)
+        return j.astype(like.dtype)
+
+    def embed(x):
+        if x is None:
+            return None
+        if view == 'slice':
+            return np.concatenate([junk(3, x), x, junk(5, x)])
+        if view == 'step':
+            out = junk(2 * n + 1, x)
+            out[0:2 * n:2] = x
+            return out
+        out = np.stack([junk(n, x), x, junk(n, x)], axis=1)      # 'strided': column 1 of an (n, 3) array
+        return np.ascontiguousarray(out)
+
+    return embed(vals), embed(var)
+
+
 def make_pixels(cfg, rows):
+    """The pixel table as a DataArray.  With cfg['pix_view'] != 'plain' every row is a VIEW into a
+    larger / strided buffer (a slice of a longer table, every second entry, a column of a 2-d
+    array) - the DataArray handed to the builder has exactly the N pixels of `rows` either way."""
     import scipp as sc
 
     rec = cfg['pix']
+    view = cfg.get('pix_view', 'plain')
+    dim = cfg.get('pix_dim', 'obs')
     sig_unit = rec['units'][7]
-    data = sc.array(dims=['obs'], values=rows[7], variances=rows[8], unit=sig_unit)
-    coords = {}
-    for r in range(7):
-        coords[ROW_NAMES[r]] = sc.array(dims=['obs'], values=rows[r], unit=rec['units'][r])
+    if view == 'plain' or len(rows[0]) == 0 and view == 'step':
+        data = sc.array(dims=[dim], values=rows[7], variances=rows[8], unit=sig_unit)
+        coords = {ROW_NAMES[r]: sc.array(dims=[dim], values=rows[r], unit=rec['units'][r]) for r in range(7)}
+        return sc.DataArray(data, coords=coords)
+    n = len(rows[0])
+
+    def big(vals, var, unit, seed):
+        bv, bvar = _as_view(np.asarray(vals), None if var is None else np.asarray(var), view, seed)
+        dims = [dim, 'k'] if view == 'strided' else [dim]
+        kw = {} if bvar is None else {'variances': bvar}
+        return sc.array(dims=dims, values=bv, unit=unit, **kw)
+
+    def cut(v):
+        if view == 'slice':
+            return v[dim, 3:3 + n]
+        if view == 'step':
+            return v[dim, 0:2 * n:2]
+        return v['k', 1]
+
+    data = cut(big(rows[7], rows[8], sig_unit, rec['seed'] + 7))
+    coords = {ROW_NAMES[r]: cut(big(rows[r], None, rec['units'][r], rec['seed'] + r)) for r in range(7)}
     return sc.DataArray(data, coords=coords)
 
 
@@ -512,16 +670,32 @@ class Built:
         self.path = None
         self.stored_name = ''    # what the file should call itself (full_filename)
         self.rows = None
+        self.objs = None         # the parameter objects handed to the builder
         self.bo = NATIVE if cfg['bo'] == 'native' else cfg['bo']
 
 
-def build_file(cfg, tmp: Path, tag: str) -> Built:
-    """Perform the configuration on the real builder.  Any exception is recorded, not raised."""
+def build_file(cfg, tmp: Path, tag: str, objs: dict | None = None) -> Built:
+    """Perform the configuration on the real builder.  Any exception is recorded, not raised.
+
+    `objs`: the parameter objects (pixel DataArray, experiment list, instrument, sample, histogram
+    metadata) of an earlier build with the same content; they are handed to the builder AGAIN instead
+    of fresh ones (the caller keeps and reuses his objects).  cfg['prev'] > 0: the target path holds
+    that many bytes of an unrelated earlier file before the builder is created.  cfg['twice']:
+    create() is called twice on the builder and the file of the second call is examined."""
     from scippneutron.io.sqw import Sqw
+    from scippneutron.io.sqw._bytes import Byteorder
 
     b = Built(cfg)
     rows = make_rows(cfg['pix'], cfg['npix'], cfg['nruns']) if 'pix' in cfg['calls'] else None
     b.rows = rows
+    objs = {} if objs is None else objs
+    b.objs = objs
+
+    def obj(kind, make):
+        if kind not in objs:
+            objs[kind] = make()
+        return objs[kind]
+
     try:
         if cfg['where'] == 'bytesio':
             target = RecordingBytesIO()
@@ -534,30 +708,34 @@ def build_file(cfg, tmp: Path, tag: str) -> Built:
             d.mkdir(parents=True, exist_ok=True)
             p = d / cfg['fname']
             b.path = p
+            if cfg.get('prev'):
+                p.write_bytes(b'\xa5' * int(cfg['prev']))
             target = os.fspath(p) if cfg['where'] == 'file_str' else p
             b.stored_name = os.fspath(p)
             b.filepath, b.filename = os.fspath(p.parent), p.name
-        builder = Sqw.build(target, title=cfg['title'], byteorder=cfg['bo'])
+        bo = Byteorder.parse(cfg['bo']) if cfg.get('bo_enum') and cfg['bo'] != 'native' else cfg['bo']
+        builder = Sqw.build(target, title=cfg['title'], byteorder=bo)
         for it in cfg['calls']:
             if it == 'pix':
-                r = builder.add_pixel_data(make_pixels(cfg, rows),
-                                           experiments=[make_experiment(e) for e in cfg['exps']],
+                r = builder.add_pixel_data(obj('pix', lambda: make_pixels(cfg, rows)),
+                                           experiments=obj('exps', lambda: [make_experiment(e) for e in cfg['exps']]),
                                            n_dims=cfg['n_dims'])
             elif it == 'det':
                 r = builder.add_empty_detector_params()
             elif it == 'dnd':
-                r = builder.add_empty_dnd_data(make_dnd(cfg['dnd']))
+                r = builder.add_empty_dnd_data(obj('dnd', lambda: make_dnd(cfg['dnd'])))
             elif it == 'inst':
-                r = builder.add_default_instrument(make_instrument(cfg['inst']))
+                r = builder.add_default_instrument(obj('inst', lambda: make_instrument(cfg['inst'])))
             elif it == 'samp':
-                r = builder.add_default_sample(make_sample(cfg['samp']))
+                r = builder.add_default_sample(obj('samp', lambda: make_sample(cfg['samp'])))
             else:
                 raise ValueError(it)
             builder = r if r is not None else builder
-        if cfg['chunk'] is None:
-            builder.create()
-        else:
-            builder.create(chunk_size=cfg['chunk'])
+        for _ in range(2 if cfg.get('twice') and cfg['where'] != 'bytesio' else 1):
+            if cfg['chunk'] is None:
+                builder.create()
+            else:
+                builder.create(chunk_size=cfg['chunk'])
         if cfg['where'] == 'bytesio':
             b.data = target.getvalue()
             b.log = list(target.log)
@@ -568,14 +746,86 @@ def build_file(cfg, tmp: Path, tag: str) -> Built:
     return b
 
 
+def hostile_first_build(tmp: Path):
+    """History before anything is judged: one file is written from single-precision and integer
+    rows in units that need conversion, as strided views, big-endian, to a real path, and read back.
+    Nothing about it is judged and every exception is ignored - a correct library answers later
+    calls the same whatever was written first."""
+    import random as _random
+
+    rng = _random.Random(4711)
+    try:
+        cfg = random_config(rng, thorough=False, small=True, force=list(ITEMS))
+        cfg.update(npix=13, chunk=4, bo='big', where='file_path', pix_view='strided', prev=0, twice=True)
+        rec = rand_pix_recipe(rng, 13, cfg['nruns'])
+        rec['kinds'] = ['f32', 'intval', 'f32', 'f32', 'int', 'int', 'int', 'f32', 'f32']
+        rec['dtypes'] = ['float32', 'int32', 'float32', 'float32', 'float32', 'int32', 'int64', 'float32', 'float32']
+        rec['units'] = ['1/nm', '1/um', '10/angstrom', 'ueV', None, None, None, 'kcount', None]
+        cfg['pix'] = rec
+        cfg['exps'] = [rand_experiment(rng, i, True, True, num='f32') for i in range(cfg['nruns'])]
+        for e in cfg['exps']:                          # single precision in units that need conversion
+            e['efix'][1], e['en'][1] = 'eV', 'ueV'
+            for k in ('psi', 'omega', 'dpsi', 'gl', 'gs'):
+                e[k][1] = 'deg'
+        b = build_file(cfg, tmp, 'hostile')
+        if b.error is None:
+            dec = D.decode_file(b.data)
+            # read back only what is a well-formed container (a reader let loose on a damaged table may not return)
+            sane = not dec.error and all(blk.get('ok') and blk.get('consumed') == e.size
+                                         for e, blk in zip(dec.entries, dec.blocks.values(), strict=True))
+            open_package(b, read_blocks=sane)
+        cleanup(b)
+    except Exception:  # noqa: BLE001
+        pass
+
+
+class ReaderTimeout(Exception):
+    """Sqw.open / read_data_block did not return within the time allowed."""
+
+
+_TIMEOUTS = [0]
+
+
+def _limited(fn, seconds: float = 20.0):
+    """fn() under a wall-clock limit (SIGALRM; the drivers run in the main thread).  A reader that is
+    handed a damaged table may loop over billions of phantom elements - that has to become a verdict
+    about the file ('block not readable'), not a check that never ends.  Reads of intact files take
+    milliseconds; once three reads have run into the limit the remaining ones get 1.5 s each."""
+    import signal
+    import threading
+
+    if threading.current_thread() is not threading.main_thread():
+        return fn()
+    if _TIMEOUTS[0] >= 3:
+        seconds = min(seconds, 1.5)
+
+    def on_alarm(signum, frame):
+        _TIMEOUTS[0] += 1
+        raise ReaderTimeout(f'no result within {seconds} s')
+
+    old = signal.signal(signal.SIGALRM, on_alarm)
+    signal.setitimer(signal.ITIMER_REAL, seconds)
+    try:
+        return fn()
+    finally:
+        signal.setitimer(signal.ITIMER_REAL, 0)
+        signal.signal(signal.SIGALRM, old)
+
+
 def open_package(b: Built, read_blocks: bool = True):
-    """What Sqw.open reports + Sqw.read_data_block for every block (each wrapped)."""
+    """What Sqw.open reports + Sqw.read_data_block for every block (each wrapped).
+
+    Every block is read twice from the same open file: first in REVERSED table order with the
+    two-argument form read_data_block(name, level2_name) -> out['blocks'], then in table order with
+    the tuple form read_data_block((name, level2_name)) -> out['blocks2'].  What a block reads as may
+    depend neither on what was read before it nor on how often it is asked for."""
     from scippneutron.io.sqw import Sqw
 
     out = {'out': 'ok', 'bo': '', 'name': '', 'v4': False, 'type': -1, 'ndims': -1, 'names': [], 'blocks': {},
-           'errors': {}}
+           'errors': {}, 'blocks2': {}, 'errors2': {}}
     try:
-        src = io.BytesIO(b.data) if b.path is None else b.path
+        src = (io.BytesIO(b.data) if b.path is None
+               else os.fspath(b.path) if b.cfg.get('where') == 'file_str' else b.path)
         with Sqw.open(src) as sqw:
             out['bo'] = sqw.byteorder.value
             fh = sqw.file_header
@@ -585,11 +835,19 @@ def open_package(b: Built, read_blocks: bool = True):
             out['ndims'] = int(fh.n_dims)
             names = [tuple(n) for n in sqw.data_block_names()]
             out['names'] = [list(n) for n in names]
-            for n in names if read_blocks else ():
+            for n in reversed(names) if read_blocks else ():
                 try:
-                    out['blocks'][n] = sqw.read_data_block(n)
+                    out['blocks'][n] = _limited(lambda n=n: sqw.read_data_block(n[0], n[1]))
                 except Exception as ex:  # noqa: BLE001
                     out['errors'][n] = ex
+            for n in names if read_blocks else ():
+                if isinstance(out['errors'].get(n), ReaderTimeout):
+                    out['errors2'][n] = out['errors'][n]          # it would not return this time either
+                    continue
+                try:
+                    out['blocks2'][n] = _limited(lambda n=n: sqw.read_data_block(n))
+                except Exception as ex:  # noqa: BLE001
+                    out['errors2'][n] = ex
     except Exception as ex:  # noqa: BLE001
         out['out'] = 'raised'
         out['exc'] = repr(ex)
@@ -600,6 +858,19 @@ def open_package(b: Built, read_blocks: bool = True):
 def energy_class(cfg) -> str:
     if 'pix' in cfg['calls'] and any(isinstance(e['en'][0][0], list) for e in cfg['exps']):
         return 'indirect mode with per-detector energy transfer'
+    return ''
+
+
+def num_class(cfg, kind: str) -> str:
+    """Stable class of a configuration w.r.t. the dtype of the metadata handed over ('' = all float64)."""
+    if kind == 'exp':
+        nums = {e.get('num', 'float') for e in cfg['exps']} if 'pix' in cfg['calls'] else set()
+    else:
+        nums = {cfg['dnd'].get('num', 'float')}
+    if 'int' in nums:
+        return 'integer-typed metadata'
+    if 'f32' in nums:
+        return 'float32 metadata'
     return ''
 
 
@@ -631,7 +902,8 @@ def layout_event(b: Built, dec: D.Decoded, op: dict, tid: int, gid: int):
     ev = {'tid': tid, 'gid': gid, 'calls': list(cfg['calls']), 'npix': cfg['npix'] if 'pix' in cfg['calls'] else 0,
           'shape': list(cfg['dnd']['shape']) if 'dnd' in cfg['calls'] else [],
           'chunk': cfg['chunk'] or 8192, 'bo': b.bo, 'where': cfg['where'], 'out': 'ok' if b.error is None else 'raised',
-          'flen': len(b.data)}
+          'flen': len(b.data), 'prev': int(cfg.get('prev') or 0) if b.path is not None else 0,
+          'gen': 2 if cfg.get('twice') and b.path is not None else 1}
     hdrok = bool(dec.byteorder_candidates) and dec.header_len > 0 and len(dec.byteorder_candidates) == 1
     ev['hdrok'] = hdrok
     ev['dec_bo'] = dec.byteorder if len(dec.byteorder_candidates) == 1 else 'ambiguous'
@@ -825,6 +1097,25 @@ def _int_or(x, bad=-999):
 
 
 def content_events(b: Built, dec: D.Decoded, op: dict, tid: int):
+    """Events of one file: every block as the independent decoder sees it ('dec') and as
+    Sqw.read_data_block returned it on its first and on its second read ('pkg', rpass 1 / 2; the
+    second-read event directly follows the first-read event of the same block)."""
+    first = _content_events(b, dec, op, tid, op['blocks'], op['errors'])
+    second = [e for e in _content_events(b, dec, op, tid, op.get('blocks2', {}), op.get('errors2', {}))
+              if e['src'] == 'pkg']
+    out, k = [], 0
+    for e in first:
+        e['rpass'] = 1
+        out.append(e)
+        if e['src'] == 'pkg':
+            if k < len(second):
+                second[k]['rpass'] = 2
+                out.append(second[k])
+            k += 1
+    return out
+
+
+def _content_events(b: Built, dec: D.Decoded, op: dict, tid: int, pk: dict, pkerr: dict):
     """One event per block and per decoder ('dec' = independent decoder, 'pkg' = Sqw.read_data_block).
 
     Numbers are compared here (exact rationals / mpmath / once-rounded float32) and reach TLC as
@@ -835,8 +1126,6 @@ def content_events(b: Built, dec: D.Decoded, op: dict, tid: int):
     nruns = cfg['nruns'] if haspix else 0
     evs = []
     byname = {e.name: dec.blocks[i] for i, e in enumerate(dec.entries)}
-    pk = op['blocks']
-    pkerr = op['errors']
 
     infile = b.path is not None   # names the file gives itself are judged for real files only
 
@@ -886,14 +1175,19 @@ def content_events(b: Built, dec: D.Decoded, op: dict, tid: int):
         n = cfg['npix']
         name = ('pix', 'data_wrap')
         blk = byname.get(name)
-        if blk is not None and blk.get('ok'):
+        lim = 2**31 - 2
+        if blk is not None and (blk.get('ok') or 'pix_partial' in blk) and int(blk['n_rows']) != 9:
+            # a table that does not have the nine rows cannot be mapped to value-ids at all
+            ev('pix', 'dec', n=n, nrows=min(int(blk['n_rows']), lim), npix=min(int(blk['n_pixels']), lim), runs=[],
+               namb=0, total=0, hasids=False, ids=[], present=0)
+        elif blk is not None and blk.get('ok'):
             runs, namb, total, ids = id_runs(blk['pix'], exp, alt, amb)
-            ev('pix', 'dec', n=n, nrows=int(blk['n_rows']), npix=int(blk['n_pixels']), runs=runs, namb=namb,
+            ev('pix', 'dec', n=n, nrows=int(blk['n_rows']), npix=min(int(blk['n_pixels']), lim), runs=runs, namb=namb,
                total=total, hasids=ids is not None, ids=ids or [], present=int(blk['pix'].shape[1]))
         elif blk is not None and 'pix_partial' in blk:
             # the block is shorter than declared: judge the pixels that are present
             runs, namb, total, ids = id_runs(blk['pix_partial'], exp, alt, amb)
-            ev('pix', 'dec', n=n, nrows=int(blk['n_rows']), npix=min(int(blk['n_pixels']), 2**31 - 2), runs=runs,
+            ev('pix', 'dec', n=n, nrows=int(blk['n_rows']), npix=min(int(blk['n_pixels']), lim), runs=runs,
                namb=namb, total=total, hasids=ids is not None, ids=ids or [],
                present=int(blk['pix_partial'].shape[1]))
         else:
@@ -905,8 +1199,8 @@ def content_events(b: Built, dec: D.Decoded, op: dict, tid: int):
         if name in pk:
             def pix_pkg():
                 arr = np.asarray(pk[name])
-                if arr.ndim != 2:
-                    raise ValueError(f'pixel array of rank {arr.ndim}')
+                if arr.ndim != 2 or arr.shape[1] != 9:
+                    raise ValueError(f'pixel array of shape {arr.shape}')
                 if not (arr.dtype.kind == 'f' and arr.dtype.itemsize == 4):   # any byte order
                     raise ValueError(f'pixel array of dtype {arr.dtype}')
                 got = np.ascontiguousarray(arr.T.astype(np.float32))
